@@ -22,7 +22,7 @@ import C08   # noqa  (shared helpers: tiny_op, judge_fast, install_classifier)
 
 SD = "specs/collfs"
 PKG = "sdk/go/arvados"
-NAMECLASSES = ["", "ascii", "ascii", "utf8"]
+NAMECLASSES = ["", "ascii", "utf8", "del", "ascii", "rawhigh"]
 
 
 def build_scenarios(ctx, paths, rnd):
@@ -55,13 +55,13 @@ def build_scenarios(ctx, paths, rnd):
         scns.append({"id": sid, "mode": "steps", "ops": [], "bs": bss[i % len(bss)], "flush": "none",
                      "rseed": ctx.seed * 104729 + i, "init": "manifest", "fail": "", "saves": 1,
                      "namemode": NAMECLASSES[i % len(NAMECLASSES)], "gen": "loadsave"})
-    # (4) dedicated scenarios re-confirming the known finding KF-C09-1 (names the escaper leaves raw)
+    # (4) regression scenarios for KF-C09-1 (fixed): names with DEL / bytes that are not UTF-8
     for i, cls in enumerate(["del", "rawhigh"]):
         sid += 1
         o = {"op": "open", "h": 1, "p": ["a"], "acc": "rw", "cr": True, "ex": False, "tr": False, "ap": False}
         scns.append({"id": sid, "mode": "steps", "ops": [o, {"op": "write", "h": 1, "d": "xy"}], "bs": 2,
                      "flush": "none", "rseed": ctx.seed + i, "init": "empty", "fail": "", "saves": 1,
-                     "namemode": cls, "gen": "kf"})
+                     "namemode": cls, "gen": "reg"})
     return scns
 
 
@@ -113,7 +113,7 @@ def run(ctx):
     ctx.rule = ("scenarios = C08 call sequences (TLC paths to distinct contract states that write data; long random "
                 "sequences; load-and-save of generated manifests) x failure plan (k-th write fails for every k up to a "
                 "budget, failure rates, background only, final save only) x name class (symbols, ASCII incl. controls/"
-                "space/colon/backslash, UTF-8) x save kind; non-trivial = a non-empty manifest was saved or a save "
+                "space/colon/backslash, UTF-8, DEL, raw non-UTF-8 bytes) x save kind; non-trivial = a non-empty manifest was saved or a save "
                 "failed; distinct by (block size, name class, sequence of Keep write outcomes and save outcomes)")
     ctx.samples = [{"scenario": by_id.get(t[0].get("scn")), "trace": [e for e in t if e["ev"] in ("reset", "putb", "savecall", "save")][:8]}
                    for t in traces[:1] + traces[-3:-2]]
